@@ -47,6 +47,7 @@ import (
 type PageNumberFinder struct {
 	wordCounter              stringutil.WordCounter
 	baseURL                  *nurl.URL
+	root                     *html.Node
 	adjacentNumberGroups     *info.MonotonicPageInfoGroups
 	numForwardLinksProcessed int
 
@@ -144,6 +145,7 @@ func (pnf *PageNumberFinder) FindOutlink(root *html.Node, pageURL *nurl.URL) *in
 	start := time.Now()
 
 	idx := 0
+	pnf.root = root
 	allLinks := dom.GetElementsByTagName(root, "a")
 	for idx < len(allLinks) {
 		link := allLinks[idx]
@@ -264,6 +266,12 @@ func (pnf *PageNumberFinder) findAndAddClosestValidLeafNodes(start *html.Node, c
 	// number of steps is the number of nodes that are passed, which in a long
 	// run of siblings is far more than a call stack can hold.
 	for {
+		// The document ends at the root that was given: what stands next to
+		// it in a larger tree is not adjacent to anything inside it.
+		if !checkStart && start == pnf.root {
+			return false
+		}
+
 		var node *html.Node
 		if checkStart {
 			node = start
